@@ -165,9 +165,30 @@ class SimSeqDrop(Sequence):
 
 
 # ``spec``: {"mode": "all"|"none"|"paths", "paths": set[str], "seq": bool, "sync": set[str]}
+class StrObj:
+    """A value object whose text form is produced by ``__str__`` (a data access like any other:
+    counted, and a fault can be placed on it)."""
+
+    __slots__ = ("text", "_ctl", "_path")
+
+    def __init__(self, text: str, ctl: DropCtl, path: str) -> None:
+        self.text = text
+        self._ctl = ctl
+        self._path = path
+
+    def __str__(self) -> str:
+        self._ctl.access(self._path, "__str__")
+        return self.text
+
+    def __repr__(self) -> str:
+        return f"StrObj({self.text!r})"
+
+
 def _wrap(v, spec, ctl: DropCtl, path: str):
     if isinstance(v, dict) and len(v) == 1 and "__liquid__" in v:
         return LiquidKey(v["__liquid__"])
+    if isinstance(v, dict) and len(v) == 1 and "__strobj__" in v:
+        return StrObj(v["__strobj__"], ctl, path)
     if isinstance(v, dict):
         m = spec.get("mode", "all")
         if m == "all" or (m == "paths" and path in spec["paths"]):
